@@ -786,3 +786,25 @@ def gen_charset_sweep():
         lines.append("T 0 elem " + el((cs, 66, 0, 0), DEFAULT_ATTR))
         lines.append("END")
     return lines
+
+
+ENUM_CLASSES = [27, 91, 79, 77, 126, 59, 63, 13, 10, 0, 155, 143, 49, 65, 97, 33, 200]
+
+
+def gen_parser_enum(maxlen):
+    """every byte string up to maxlen over 17 byte classes of the input decoder,
+    each on a fresh terminal, followed by four letters and a well-known key"""
+    import itertools
+    lines = []
+    n = 0
+    for k in range(0, maxlen + 1):
+        for t in itertools.product(ENUM_CLASSES, repeat=k):
+            n += 1
+            lines.append("CASE %d" % n)
+            lines.append("T 0 new 0")
+            lines.append("T 0 arm")
+            lines.append("T 0 recv " + hexs(list(t)))
+            lines.append("T 0 recv 41424344")
+            lines.append("T 0 items IT csikey 0 65 -1 -1 IT char 120")
+            lines.append("END")
+    return lines
